@@ -7,6 +7,10 @@ import os
 HERE = os.path.dirname(os.path.dirname(os.path.abspath(__file__)))
 
 CLAIMED = {
+ "C03": dict(engine="K+M", category="model_checking", design="DESIGN.md 3/C03",
+   technique="Kani/CBMC on HttpStatus::try_from + MIR symbolic execution/z3 on the emitter's anchored mechanisms; validator over real oal-cli output as replay",
+   text="Partial: one lemma family per anchored mechanism. Status domain: for every u64, HttpStatus::try_from is Ok(Code(v)) iff 100<=v<=599 (Kani); parse_http_status maps [1-5]XX to the matching range (Kani, regex compared with the source attribute); Builder::http_status_code maps Code(c) to StatusCode::Code(c) and the five ranges to exactly 1..5; the evaluator turns a number into a status only through try_from and its default-status constant is in range. $ref closure: reference_schema emits a Reference exactly on the paths where maybe_inline(name) is None, with target '#/components/schemas/'+untagged(name); one iteration of all_components registers key untagged(name) exactly when maybe_inline(name) is None (same predicate, same key). Path key vs. parameters: all_paths derives key and PathItem from the same relation; relation_path_item.parameters = uri_params(rel.uri) untouched by the method loop; per segment, pattern_with contributes '/'+'{name}' for a Variable and uri_params exactly one required Parameter::Path named after the same property, a Literal contributes its text and no parameter.",
+   note="Trusted: Kani/CBMC, MIR text, mirsym, z3. Outside: that every Ref name the evaluator emits is registered in spec.refs, operationId uniqueness, YAML parse-back, Builder::schema internals. A failing lemma is reported only if an independent validator finds a dangling $ref / parameter mismatch / bad response key in what the real oal-cli emits for a 9-program corpus."),
  "C04": dict(engine="K+M", category="model_checking", design="DESIGN.md 3/C04",
    technique="Kani/CBMC on the lexer's conversion kernels + MIR symbolic execution/z3 on the glue between phases; nasty-text replay on oal-cli and oal_wasm::compile",
    text="Partial: the conversion kernels and the glue between phases, not lexer+parser+compiler as a whole. Kani: parse_number on every [0-9]{1,24} string, parse_quoted_string / parse_prefixed_string on every delimiter + <= K arbitrary scalar values (K=3 quick, 6 thorough), parse_http_status on [1-5]XX, CharSpan::from on every text <= K chars and every usize pair never panic and return the specified slice/value (token regexes are compared with the #[regex] attributes at run time). MIR+z3: oal_syntax::parse returns no tree only after pushing an error (from lemmas: tokenize always returns Some, compose_node always returns Node, parse_program returns Ok((_, compose_node(..)))); WebLoader::parse's unwrap is unreachable under that contract, ProcLoader/WorkspaceLoader never unwrap; Context::span past the end is end..end+1 without a token lookup; occurs() descends into every Tag child (guard against a diverging reduce); every panicking path in the front-end glue functions is either refuted or rests on a listed environment contract.",
@@ -44,7 +48,6 @@ NA = {
 
 PENDING = {
  "C01": "check under construction (engine T+M); not yet registered",
- "C03": "check under construction (engines K+M); not yet registered",
  "C15": "check under construction (engines K+M); not yet registered",
 }
 
